@@ -120,6 +120,12 @@ func genRes(rt *rapid.T, cfg GenCfg, gc genCtx) []ResSpec {
 // GenOps draws one op or a macro of several ops (top-level authority only).
 func GenOps(rt *rapid.T, cfg GenCfg) []Op { return genOps(rt, cfg, genCtx{auths: 1}) }
 
+// GenOpsAuth is GenOps for a plan with `auths` authorities (including the
+// top-level one): watches and response resources are spread over them.
+func GenOpsAuth(rt *rapid.T, cfg GenCfg, auths int) []Op {
+	return genOps(rt, cfg, genCtx{auths: auths})
+}
+
 func genOps(rt *rapid.T, cfg GenCfg, gc genCtx) []Op {
 	total := cfg.WWatch + cfg.WUnwatch + cfg.WResp + cfg.WBreak + cfg.WGrant + cfg.WRelease + cfg.WAdvance + cfg.WRestart
 	total += cfg.WViv + cfg.WFailover + cfg.WRevert
